@@ -275,12 +275,12 @@ func c16Run(c c16Case, seed string) (sig, msg string, nontrivial bool, inconclus
 			}
 			if legit && isAwaiting {
 				// the awaiting entry is consumed; sealed unless the ledger refuses the issuer (node / genesis wallet)
-				delete(m.awaiting, tx.Hash)
 				if okN == 1 {
+					delete(m.awaiting, tx.Hash)
 					m.sealedOrTentative(tx, w.Wallets[1+4].Addr)
 					labels["contract-confirmed"]++
 				} else {
-					labels["valid-request-refused"]++ // the sealing step may fail (e.g. while it drops an invalid tip); the entry is consumed
+					labels["valid-request-refused"]++ // the sealing step may fail (e.g. while it drops an invalid tip); a refused request changes nothing
 				}
 			} else if okN > 0 && !isAwaiting {
 				return "confirm-of-non-awaiting-sealed", fmt.Sprintf("step %d: confirming a transaction that is not awaiting succeeded", step), nontrivial, ""
@@ -329,8 +329,8 @@ func c16Run(c c16Case, seed string) (sig, msg string, nontrivial bool, inconclus
 				return "sealed-twice", fmt.Sprintf("step %d: %d concurrent identical rejects succeeded", step, okN), nontrivial, ""
 			}
 			if legit && isAwaiting {
-				delete(m.awaiting, tx.Hash)
 				if okN == 1 {
+					delete(m.awaiting, tx.Hash)
 					m.sealedOrTentative(tx, w.Wallets[1+4].Addr)
 					labels["contract-rejected"]++
 				} else {
